@@ -213,7 +213,8 @@ def mesh_facts(ctx, entries):
         if v[0] == "ZMESH":
             x = v[1]
             facts[x["id"]] = {"crit": [list(c) for c in x["crit"]], "lo": list(x["lo"]), "hi": list(x["hi"]), "pole": [bool(b) for b in x["pole"]],
-                              "eqedge": [bool(b) for b in x["eqedge"]], "n": x["n"]}
+                              "eqedge": [bool(b) for b in x["eqedge"]], "n": x["n"], "nodepos": sorted(x["nodepos"]),
+                              "flat": [sorted(z) for z in x["flat"]], "corners": [sorted(z) for z in x["corners"]], "tops": [sorted(z) for z in x["tops"]]}
     os.remove(path)
     return facts, len(vals) - len(facts)
 
@@ -354,8 +355,13 @@ def mesh_call(job):
         n = len(faces)
         rec = {"kind": "mesh", "id": "%s@%s" % (job["id"], lam_id), "n": n, "lam": [kind, k], "lo": fx["lo"], "hi": fx["hi"], "pole": fx["pole"],
                "onpar": [bool(fx["eqedge"][f] and kind == "at" and fx["crit"][k - 1][0] == 0) for f in range(n)], "atpole": bool(atpole),
+               "nodepos": fx["nodepos"], "flat": fx["flat"], "corners": fx["corners"], "tops": fx["tops"],
                "cand": [f + 1 for f in cand], "raised": w is None, "lam_deg": math.degrees(lam), "sym_applied": list(job["sym"])}
         pos, orc, sum1, even, sym = [False] * n, [True] * n, False, False, True
+        # narrowing fields for known findings (float, never a verdict): a candidate whose reported longitude bounds wrap
+        # through 0 and that meets the parallel in two separate arcs; a candidate with an odd number (>= 3) of contact points
+        arcs_c = {f: face_arcs(vecs[f], lam) for f in cand}
+        rec["seam_face_two_arcs"] = bool(any(b[f][1][0] > b[f][1][1] and len(arcs_c[f]) >= 2 for f in cand))
         if w is not None:
             for f, x in zip(cand, w):
                 pos[f] = x > 1e-12
@@ -370,6 +376,8 @@ def mesh_call(job):
                         orc[f] = abs(x - y) <= 1e-9
                     rec["oracle"] = o
             tc, tw, terr = call_weights(tb, tfe, zsign * lam)
+            tvecs = [[tn[i] for i in f] for f in tf]
+            rec["seam_face_two_arcs"] = bool(rec["seam_face_two_arcs"] or any(tb[f][1][0] > tb[f][1][1] and len(face_arcs(tvecs[f], zsign * lam)) >= 2 for f in tc))
             sym = tw is not None and tc == cand and all(abs(x - y) <= 1e-9 for x, y in zip(w, tw))
             rec["weights"] = w
         else:
@@ -414,7 +422,7 @@ def judge(ctx, recs):
     path = os.path.join(ctx.work, "zonal_recs.ndjson")
     keep = {"sweep": ("kind", "id", "rows", "n", "m", "raised", "got", "tot", "exact"),
             "weights": ("kind", "id", "rows", "n", "m", "raised", "got", "exact"),
-            "mesh": ("kind", "id", "n", "lam", "lo", "hi", "pole", "onpar", "atpole", "cand", "raised", "pos", "orc", "sum1", "even", "sym")}
+            "mesh": ("kind", "id", "n", "lam", "lo", "hi", "pole", "onpar", "atpole", "cand", "raised", "pos", "orc", "sum1", "even", "sym", "nodepos", "flat", "corners", "tops")}
     with open(path, "w") as fh:
         for r in recs:
             fh.write(json.dumps({k: r[k] for k in keep[r["kind"]]}) + "\n")
@@ -428,7 +436,7 @@ def judge(ctx, recs):
         if v[0] == "U":
             unclaimed.add(v[1])
         else:
-            failed[v[1]] = sorted(v[2])
+            failed[v[1]] = (sorted(v[2]), dict(v[3]))
     os.remove(path)
     ctx.traces += len(recs)
     return failed, unclaimed
@@ -477,16 +485,19 @@ def run(ctx):
     ctx.note("records", kinds)
     ctx.note("mesh_latitudes_outside_documented_domain_not_judged", len(unclaimed))
     nf = {}
+    drop = ("lo", "hi", "pole", "onpar", "nodepos", "flat", "corners", "tops")
     for rid in sorted(failed):
         r = by_id[rid]
-        for clause in failed[rid]:
+        clauses, sig = failed[rid]
+        for clause in clauses:
             nf[clause] = nf.get(clause, 0) + 1
-            sig = {"kind": r["kind"]}
+            s = dict(sig)
+            s["kind"] = r["kind"]
+            s["error"] = (r.get("error") or "").split(":")[0]
             if r["kind"] == "mesh":
-                sig.update(lam_kind=r["lam"][0], at_pole=r["atpole"], error=(r.get("error") or "").split(":")[0])
-            else:
-                sig.update(error=(r.get("error") or "").split(":")[0])
-            ctx.violation(rid, clause, detail={k: r[k] for k in r if k not in ("lo", "hi", "pole", "onpar")}, sig=sig,
+                s["seam_face_two_arcs"] = r.get("seam_face_two_arcs", False)
+                s["error_text"] = (r.get("error") or "")[:60]
+            ctx.violation(rid, clause, detail={k: r[k] for k in r if k not in drop}, sig=s,
                           replay={k: r[k] for k in r if k in ("id", "kind", "rows", "n", "m", "lam_deg", "cand", "weights", "oracle", "error", "sym_applied", "got")})
     ctx.note("failed_clause_counts", nf)
     for r in recs[:1] + [x for x in recs if x["kind"] == "weights"][:1] + [x for x in recs if x["kind"] == "mesh" and not x["raised"]][:1]:
